@@ -34,12 +34,17 @@ deriving Repr, Inhabited
 /-- `w` low bits of `v` as an unsigned number -/
 def ubits (w : Nat) (v : Int) : Int := v % (2 ^ w : Int)
 
+/-- rotate the `w`-bit pattern of `v` left by `k ≤ w` -/
+def rotlK (w : Nat) (v : Int) (k : Nat) : Int :=
+  ubits w (ubits w v * 2 ^ k) + ubits w v / (2 ^ (w - k) : Int)
+
 /-- rotate the `w`-bit pattern of `v` left by `n` (any integer `n`) -/
 def rotl (w : Nat) (v : Int) (n : Int) : Int :=
-  if w = 0 then 0 else
-    let k := (n % (w : Int)).toNat
-    let u := ubits w v
-    ubits w (u * 2 ^ k) + u / (2 ^ (w - k) : Int)
+  if w = 0 then 0 else rotlK w v (n % (w : Int)).toNat
+
+/-- `k` copies of the `w`-bit pattern `u` side by side -/
+def repSum (u : Int) (w k : Nat) : Int :=
+  (List.range k).foldl (fun acc i => acc + u * 2 ^ (w * i)) 0
 
 /-- the shape and value of a derived operator applied to operands with the given shapes and values -/
 def derived (op : DOp) (args : List (Shape × Int)) : Option (Shape × Int) :=
@@ -59,7 +64,7 @@ def derived (op : DOp) (args : List (Shape × Int)) : Option (Shape × Int) :=
   | .rotateLeft n, [(s, v)] => some (⟨s.width, false⟩, rotl s.width v n)
   | .rotateRight n, [(s, v)] => some (⟨s.width, false⟩, rotl s.width v (-n))
   | .replicate k, [(s, v)] =>
-    some (⟨s.width * k, false⟩, (List.range k).foldl (fun acc i => acc + ubits s.width v * 2 ^ (s.width * i)) 0)
+    some (⟨s.width * k, false⟩, repSum (ubits s.width v) s.width k)
   | .matches ps, [(s, v)] =>
     some (⟨1, false⟩, if ps.any (fun p => match p with
       | .bits b => b.matchesSpec v
